@@ -29,6 +29,7 @@ RULE = ('one evaluation = one seeded run: a single-client sequence of 10-120 map
         'lookups, replacements, setdefault, popitem, deletions on shared keys under the seeded scheduler, checked for linearizability '
         'against an ordered-dictionary model with no tolerated miss; non-trivial = at least 5 calls / a context switch; distinct = '
         'SHA-256 of program or event log')
+RULE += ' ' + "Sequences on an Index obtained from a FanoutCache / DjangoCache also contain the parent's own clear / expire / cull / evict / set / delete calls."
 ASSUMPTIONS = ['Index.setdefault is checked as the documented get/add loop (insert attempts + final lookup), not as one indivisible step',
                'key alphabet avoids pairs that Python treats as equal but diskcache documents as distinct (True/1, 2**63/2.0**63)']
 PROBES = ('fifo_churn', 'own_temporary_directory', 'lifecycle', 'from_fanout', 'from_django', 'parent_calls', 'lock_wait', 'file_backed_replace')
